@@ -379,7 +379,7 @@ def z3_model_inputs(E, m, used):
 
 
 def discharge(E, obs, tier="quick", jobs=None, log=None, inproc_ms=None, timeout=None, solvers=None):
-    stats = _discharge(E, obs, tier, jobs, log, inproc_ms, timeout, solvers, refine=False)
+    stats = _discharge_par(E, obs, tier, jobs, log, inproc_ms, timeout, solvers, refine=False)
     if E.refinements:
         again = [o for o in obs if o.status == "sat" and o.kind != "reach"]
         if again:
@@ -395,6 +395,62 @@ def discharge(E, obs, tier="quick", jobs=None, log=None, inproc_ms=None, timeout
     return stats
 
 
+def _discharge_par(E, obs, tier, jobs, log, inproc_ms, timeout, solvers, refine):
+    """fork worker processes (each inherits the z3 terms) when there are many obligations"""
+    import json
+    nw = int(E.cfg.get("workers", min(12, os.cpu_count() or 4)))
+    todo = [o for o in obs]
+    if len(todo) < 24 or nw <= 1 or os.environ.get("VERIF_NOFORK"):
+        return _discharge(E, obs, tier, jobs, log, inproc_ms, timeout, solvers, refine)
+    d = tmpdir()
+    pids = []
+    t0 = time.time()
+    for w in range(nw):
+        mine = [(i, o) for i, o in enumerate(todo) if i % nw == w]
+        path = os.path.join(d, "res_%d_%d.json" % (os.getpid(), w))
+        pid = os.fork()
+        if pid == 0:
+            code = 0
+            try:
+                global _tmpdir
+                _tmpdir = None
+                st = _discharge(E, [o for _, o in mine], tier, 2, None, inproc_ms, timeout, solvers, refine)
+                res = [(i, o.status, o.solver, o.time, o.model, o.note) for i, o in mine]
+                with open(path + ".tmp", "w") as f:
+                    json.dump({"res": res, "stats": st}, f, default=str)
+                os.rename(path + ".tmp", path)
+                cleanup()
+            except BaseException as e:  # noqa
+                import traceback
+                traceback.print_exc()
+                code = 3
+            finally:
+                os._exit(code)
+        pids.append((pid, path, mine))
+    stats = {"inproc": 0, "portfolio": 0, "solver_s": 0.0, "by_solver": {}, "workers": nw}
+    for pid, path, mine in pids:
+        _, status = os.waitpid(pid, 0)
+        if not os.path.exists(path):
+            for i, o in mine:
+                o.status = "unknown"
+                o.note = "worker failed"
+            continue
+        with open(path) as f:
+            data = json.load(f)
+        os.unlink(path)
+        for (i, st, solver, tm, model, note) in data["res"]:
+            o = todo[i]
+            o.status, o.solver, o.time, o.model, o.note = st, solver, tm, model, note
+        stt = data["stats"]
+        stats["inproc"] += stt["inproc"]
+        stats["portfolio"] += stt["portfolio"]
+        stats["solver_s"] += stt["solver_s"]
+        for k, v in stt["by_solver"].items():
+            stats["by_solver"][k] = stats["by_solver"].get(k, 0) + v
+    stats["wall_s"] = time.time() - t0
+    return stats
+
+
 def _discharge(E, obs, tier, jobs, log, inproc_ms, timeout, solvers, refine):
     """decide every obligation.  Stage 1: in-process z3 with a short timeout.
     Stage 2: 4-way portfolio on SMT-LIB2 files."""
@@ -404,47 +460,80 @@ def _discharge(E, obs, tier, jobs, log, inproc_ms, timeout, solvers, refine):
     str_ax = E.str_axioms()
     pending = []
     stats = {"inproc": 0, "portfolio": 0, "solver_s": 0.0, "by_solver": {}}
-    for ob in obs:
+    t_last = time.time()
+    incremental = E.cfg.get("inproc_mode", "oneshot") == "incremental" and not refine
+    inc = None
+    inc_n = 0
+    if incremental:
+        inc = z3.Solver()
+        inc.set("timeout", inproc_ms)
+        for a in str_ax:
+            inc.add(a)
+    for k_ob, ob in enumerate(obs):
+        if log and time.time() - t_last > 30:
+            t_last = time.time()
+            log("  ... %d/%d obligations tried in-process (%d undecided so far)" % (k_ob, len(obs), len(pending)))
         neg = Not(ob.claim)
         if is_false(ob.guard) or is_false(neg):
             ob.status = "trivial"
             ob.solver = "syntactic"
             continue
         terms = [ob.guard, neg]
-        # assumptions are not retroactive: only those in force when the obligation was created
-        rel = relevant(E.assumptions[:ob.assum_n] + str_ax + (E.refinements if refine else []), terms)
-        asserts = rel + [t for t in terms if not is_true(t)]
         t0 = time.time()
         r = z3.unknown
-        has_fp = False
-        if inproc_ms > 0:
-            s = z3.Solver()
-            s.set("timeout", inproc_ms)
-            for a in asserts:
-                s.add(a)
+        s = None
+        if incremental:
+            while inc_n < ob.assum_n:
+                inc.add(E.assumptions[inc_n])
+                inc_n += 1
+            inc.push()
+            for t in terms:
+                if not is_true(t):
+                    inc.add(t)
             try:
-                r = s.check()
+                r = inc.check()
             except z3.Z3Exception:
                 r = z3.unknown
+            s = inc
+            asserts = None
+        else:
+            # assumptions are not retroactive: only those in force when the obligation was created
+            rel = relevant(E.assumptions[:ob.assum_n] + str_ax + (E.refinements if refine else []), terms)
+            asserts = rel + [t for t in terms if not is_true(t)]
+            if inproc_ms > 0:
+                s = z3.Solver()
+                s.set("timeout", inproc_ms)
+                for a in asserts:
+                    s.add(a)
+                try:
+                    r = s.check()
+                except z3.Z3Exception:
+                    r = z3.unknown
         dt = time.time() - t0
         stats["solver_s"] += dt
-        used = set()
-        for a in asserts:
-            used |= symbols(a)
         if r == z3.unsat:
             ob.status, ob.solver, ob.time = "unsat", "z3py", dt
             stats["inproc"] += 1
             stats["by_solver"]["z3py"] = stats["by_solver"].get("z3py", 0) + 1
         elif r == z3.sat:
             ob.status, ob.solver, ob.time = "sat", "z3py", dt
+            used = set(E.inputs.keys()) if incremental else set().union(*[symbols(a) for a in asserts])
             ob.model = z3_model_inputs(E, s.model(), used)
             stats["inproc"] += 1
             stats["by_solver"]["z3py"] = stats["by_solver"].get("z3py", 0) + 1
         else:
+            if asserts is None:
+                rel = relevant(E.assumptions[:ob.assum_n] + str_ax, terms)
+                asserts = rel + [t for t in terms if not is_true(t)]
+            used = set()
+            for a in asserts:
+                used |= symbols(a)
             vt, keys = value_terms_for(E, used)
             q = Query(ob, asserts, vt)
             q.smt2()   # z3 is not thread-safe: print the query in the main thread
             pending.append((ob, q, keys, vt))
+        if incremental:
+            inc.pop()
     if pending:
         def work(item):
             ob, q, keys, vt = item
